@@ -1,8 +1,84 @@
 package main
 
-// Replay of refutations against the real code (go test -overlay). Families are added per
-// property; without a template the violation is reported with no-failing-input-found.
+// Replay of refutations against the real code. A refuted obligation is mapped (by name) to
+// a replay template: a Go test injected into /repo with `go test -overlay` (nothing is
+// written to /repo). The test drives the real function with an input of the class the
+// model describes and prints REPLAY-CONFIRMED when the violating behaviour is observed.
+// Without a template, or when the behaviour is not reproduced, the violation is reported
+// with the suffix no-failing-input-found.
+
+import (
+	"context"
+	"encoding/json"
+	"fmt"
+	"os"
+	"os/exec"
+	"path/filepath"
+	"regexp"
+	"strings"
+	"time"
+)
+
+type replayTemplate struct {
+	Obligation string `json:"obligation"` // regexp on the logical obligation name
+	File       string `json:"file"`       // test source under /verif/replay
+	Test       string `json:"test"`       // test function name
+	Pkg        string `json:"pkg"`        // "." or "./cmd/desync"
+	Note       string `json:"note"`
+}
 
 func tryReplay(eng *Engine, prop string, l *logical, seed int) (bool, map[string]interface{}) {
-	return false, map[string]interface{}{"outcome": "no replay template for this obligation family"}
+	verif := "/verif"
+	if exe, err := os.Executable(); err == nil {
+		verif = filepath.Dir(filepath.Dir(exe))
+	}
+	data, err := os.ReadFile(filepath.Join(verif, "replay", "templates.json"))
+	if err != nil {
+		return false, map[string]interface{}{"outcome": "no replay templates"}
+	}
+	var tpls []replayTemplate
+	if err := json.Unmarshal(data, &tpls); err != nil {
+		return false, map[string]interface{}{"outcome": "bad templates.json: " + err.Error()}
+	}
+	for _, t := range tpls {
+		re, err := regexp.Compile("^(?:" + t.Obligation + ")$")
+		if err != nil || !re.MatchString(l.Name) {
+			continue
+		}
+		ok, out := runReplay(eng.repoDir, filepath.Join(verif, "replay", t.File), t.Test, t.Pkg, seed)
+		outcome := "REPLAY-NOT-REPRODUCED"
+		if ok {
+			outcome = "REPLAY-CONFIRMED"
+		}
+		return ok, map[string]interface{}{"outcome": outcome, "template": t.File, "test": t.Test, "note": t.Note, "output": out}
+	}
+	return false, map[string]interface{}{"outcome": "no replay template for this obligation"}
+}
+
+func runReplay(repo, src, test, pkg string, seed int) (bool, string) {
+	tmp, err := os.MkdirTemp("", "gocv-replay-")
+	if err != nil {
+		return false, err.Error()
+	}
+	defer os.RemoveAll(tmp)
+	dir := repo
+	if pkg != "" && pkg != "." {
+		dir = filepath.Join(repo, pkg)
+	}
+	target := filepath.Join(dir, "zz_verif_replay_test.go")
+	ov := map[string]map[string]string{"Replace": {target: src}}
+	ovData, _ := json.Marshal(ov)
+	ovFile := filepath.Join(tmp, "overlay.json")
+	os.WriteFile(ovFile, ovData, 0o644)
+	ctx, cancel := context.WithTimeout(context.Background(), 240*time.Second)
+	defer cancel()
+	cmd := exec.CommandContext(ctx, "go", "test", "-overlay", ovFile, "-v", "-vet=off", "-count=1", "-timeout", "120s", "-run", "^"+test+"$", ".")
+	cmd.Dir = dir
+	cmd.Env = append(os.Environ(), "GOFLAGS=-mod=readonly", "GOPROXY=off", "GOSUMDB=off", "GOTOOLCHAIN=local", fmt.Sprintf("VERIF_SEED=%d", seed))
+	out, _ := cmd.CombinedOutput()
+	s := string(out)
+	if len(s) > 6000 {
+		s = s[:6000] + "...[truncated]"
+	}
+	return strings.Contains(s, "REPLAY-CONFIRMED"), s
 }
